@@ -42,6 +42,7 @@ const (
 )
 
 func runC07(c *Ctx) {
+	c05SetRoles(c, "C07.anchors", "graph.lock", "graph.nodes", "graph.predecessors", "graph.successors", "oci.graph", "oci.sync")
 	c07R1Index(c)
 	c07R1Remove(c)
 	c07R1Predecessors(c)
@@ -63,7 +64,7 @@ func runC07(c *Ctx) {
 // c07MapOf: v is a load of graph.Memory.<field>.
 func c07MapOf(v ssa.Value, field string) bool {
 	u, ok := v.(*ssa.UnOp)
-	return ok && u.Op == token.MUL && c05IsFieldAddrOf(u.X, c07GraphT, field)
+	return ok && u.Op == token.MUL && c05Cur.F("graph."+field) != "" && c05IsFieldAddrOf(u.X, c07GraphT, c05Cur.F("graph."+field))
 }
 
 // c07IsKeyOf: v is descriptor.FromOCI(x) with x satisfying of (looking through single-assignment struct locals).
@@ -130,7 +131,14 @@ func c07EveryIteration(body Edge, header *ssa.BasicBlock, ins ...ssa.Instruction
 	if len(ins) == 0 {
 		return false
 	}
-	return !reach(body.To, 0, header.Instrs[0], newCut().Instr(ins...))
+	return !c07IterSkips(body, header, newCut().Instr(ins...))
+}
+
+// c07IterSkips: some feasible path from the loop body's entry reaches the next
+// iteration without passing the cut (branches that contradict earlier tests of
+// the same value on the path are not followed).
+func c07IterSkips(body Edge, header *ssa.BasicBlock, ct *cut) bool {
+	return c05ReachF(body.To, 0, body.From, header.Instrs[0], ct, c05EdgeFacts(body), nil)
 }
 
 // ---------------------------------------------------------------- R1: index
@@ -139,7 +147,7 @@ func c07EveryIteration(body Edge, header *ssa.BasicBlock, ins ...ssa.Instruction
 // helper's own receiver resolves to the root's receiver).
 func c07MapOfE(v ssa.Value, field string, e *c05Env) bool {
 	u, ok := v.(*ssa.UnOp)
-	if !ok || u.Op != token.MUL || !c05IsFieldAddrOf(u.X, c07GraphT, field) {
+	if !ok || u.Op != token.MUL || c05Cur.F("graph."+field) == "" || !c05IsFieldAddrOf(u.X, c07GraphT, c05Cur.F("graph."+field)) {
 		return false
 	}
 	base := u.X.(*ssa.FieldAddr).X
@@ -456,7 +464,7 @@ func c07R1Remove(c *Ctx) {
 			inLoopN++
 		}
 	}
-	okD := inLoopN > 0 && !reach(body.To, 0, loop.Header.Instrs[0], uc)
+	okD := inLoopN > 0 && !c07IterSkips(body, loop.Header, uc)
 	c.Check(R, tn+"|unlink-every-iteration", blockPos(body.To), okD,
 		ifelse(okD, "predecessors[successorKey].Delete(key(node)) runs in every iteration", "an iteration can finish without deleting key(node) from predecessors[successorKey]: Predecessors(successor) keeps reporting the removed node"))
 	// delete(m.predecessors, k): only the current key, only when its set is empty — in Remove or in a helper it calls
@@ -589,7 +597,7 @@ func c07R1Predecessors(c *Ctx) {
 			}
 		}
 	}
-	ok := app != nil && okElems && !reach(body.To, 0, loop.Header.Instrs[0], ct)
+	ok := app != nil && okElems && !c07IterSkips(body, loop.Header, ct)
 	c.Check(R, tn+"|one-result-per-predecessor", blockPos(body.To), ok,
 		ifelse(ok, "every iteration appends exactly nodes[k] for the current predecessor key", "an iteration can skip a predecessor, append something other than nodes[k], or append more than one element (omission / extra / duplicate)"))
 	if app == nil {
@@ -748,7 +756,7 @@ func c07R2Push(c *Ctx) {
 		pkg, name string
 		skip      string
 	}
-	for _, x := range []t{{"content/memory", "Store.Push", ""}, {"content/oci", "Store.Push", ""}, {"content/file", "Store.Push", "~/content/file.errSkipUnnamed"}} {
+	for _, x := range []t{{"content/memory", "Store.Push", ""}, {"content/oci", "Store.Push", ""}, {"content/file", "Store.Push", "skip"}} {
 		fn := c.P.Fn(x.pkg, x.name)
 		if fn == nil || len(fn.Blocks) == 0 {
 			c.LostAnchor(R, x.pkg+"."+x.name)
@@ -792,10 +800,14 @@ func c07R2Push(c *Ctx) {
 			Edges: func(e *c05Env) []Edge {
 				var out []Edge
 				if x.skip != "" {
-					te, _, _ := CallTests(e.Fn, "errors.Is", func(call *ssa.Call) bool { return sentinelName(call.Call.Args[1]) == x.skip })
+					skip := map[string]bool{}
+					for _, sn := range c05SkipSentinels(c.P) {
+						skip[sn] = true
+					}
+					te, _, _ := CallTests(e.Fn, "errors.Is", func(call *ssa.Call) bool { return skip[sentinelName(call.Call.Args[1])] })
 					out = append(out, te...)
 					// `err == errSkipUnnamed` / switch forms
-					eq, _ := c05EqEdges(e.Fn, func(v ssa.Value) bool { return isErrorType(v.Type()) }, func(v ssa.Value) bool { return sentinelName(v) == x.skip })
+					eq, _ := c05EqEdges(e.Fn, func(v ssa.Value) bool { return isErrorType(v.Type()) }, func(v ssa.Value) bool { return skip[sentinelName(v)] })
 					out = append(out, eq...)
 				}
 				// kinds without outgoing edges need no indexing (R3 ties IsManifest to the kinds Successors decodes)
@@ -811,7 +823,7 @@ func c07R2Push(c *Ctx) {
 			ifelse(ok, "every path to a nil error passes graph.Index(expected)"+ifelse(x.skip != "", " (discarded unnamed content excepted)", ""), "Push can succeed without indexing the pushed node: Predecessors of its successors omit it"))
 		okErr, detail := true, ""
 		for _, h := range hits {
-			r := ErrFlow(h.call, ErrFlowOpts{})
+			r := c05ErrFlow(h.call, ErrFlowOpts{})
 			if !r.OK {
 				okErr, detail = false, r.Detail
 			} else if detail == "" {
@@ -822,7 +834,7 @@ func c07R2Push(c *Ctx) {
 					okErr, detail = false, "the helper "+FnName(e.Fn)+" that indexes has its error discarded at "+c.P.Pos(e.Call.Pos())
 					continue
 				}
-				if r := ErrFlow(e.Call, ErrFlowOpts{Tolerated: ifelseS(x.skip != "", []string{x.skip}, nil)}); !r.OK {
+				if r := c05ErrFlow(e.Call, ErrFlowOpts{Tolerated: ifelseS(x.skip != "", c05SkipSentinels(c.P), nil)}); !r.OK {
 					okErr, detail = false, r.Detail
 				}
 			}
@@ -840,32 +852,84 @@ func ifelseS(b bool, x, y []string) []string {
 
 func c07R2Delete(c *Ctx) {
 	const R = "C07.R2.every-push-indexed"
+	fn := c.P.Fn("content/oci", "Store.Delete")
+	if fn == nil || len(fn.Blocks) == 0 {
+		c.LostAnchor(R, "(*~/content/oci.Store).Delete")
+		return
+	}
+	tn := FnName(fn)
+	root := c05Root(fn)
+	isBlobDelete := func(n string) bool {
+		return n == "(*~/content/oci.Storage).Delete" || n == "(~/content.Deleter).Delete"
+	}
 	n := 0
-	for _, fn := range c.P.FuncsOfPkg("content/oci") {
-		rms := CallsTo(fn, c07Remove)
-		if len(rms) == 0 {
-			continue
-		}
-		n++
-		tn := FnName(fn)
-		target := c07DescParam(fn)
-		ok := true
-		for _, rm := range rms {
-			a := rm.Common().Args
-			if c05DescSource(a[len(a)-1]) != target || target == nil {
-				ok = false
+	for _, e := range c05TreeEnvs(root, 3) {
+		for _, d := range Calls(e.Fn, isBlobDelete) {
+			if _, isDefer := d.(*ssa.Defer); isDefer {
+				continue
 			}
-		}
-		for _, a := range c05MaybeNilAtoms(fn) {
-			if !c05AtomMustPass(a, newCut().Calls(rms)) {
-				ok = false
+			n++
+			a := d.Common().Args
+			dv, dat := e.up(a[len(a)-1])
+			same := func(v ssa.Value, at *c05Env) bool {
+				rv, rat := at.up(v)
+				if rat != dat {
+					return false
+				}
+				if rv == dv || SameValue(rv, dv) {
+					return true
+				}
+				p, q := c05ParamOf(rv), c05ParamOf(dv)
+				return p != nil && p == q
 			}
+			spec := c05PassSpec{Instr: func(in ssa.Instruction, e2 *c05Env) bool {
+				call, ok := in.(*ssa.Call)
+				if !ok || CalleeName(call) != c07Remove {
+					return false
+				}
+				ra := call.Call.Args
+				return same(ra[len(ra)-1], e2)
+			}}
+			// (a) the node is removed from the graph before the blob is deleted …
+			before := false
+			var tgt ssa.Instruction = d.(ssa.Instruction)
+			for lv := e; lv != nil; lv = lv.Parent {
+				ct := c05PassCut(lv, spec)
+				if len(ct.instrs) > 0 && MustPass(tgt, ct) {
+					before = true
+					break
+				}
+				if lv.Call == nil {
+					break
+				}
+				tgt = lv.Call.(ssa.Instruction)
+			}
+			// (b) … or right after it succeeded, before success is reported / the next node is processed
+			after := false
+			if !before {
+				ct := c05PassCut(e, spec)
+				ct.Edges(func() []Edge { _, ne, _ := NilTests(e.Fn, Aliases(ErrOf(d))); return ne }()...)
+				if len(ct.instrs) > 0 {
+					after = true
+					for _, at := range c05MaybeNilAtoms(e.Fn) {
+						if reach(d.Block(), instrIndex(d.(ssa.Instruction))+1, at.Ret, ct) {
+							after = false
+						}
+					}
+					for _, l := range Loops(e.Fn) {
+						if l.Contains(d.(ssa.Instruction)) && reach(d.Block(), instrIndex(d.(ssa.Instruction))+1, l.Header.Instrs[0], ct) {
+							after = false
+						}
+					}
+				}
+			}
+			ok := before || after
+			c.Check(R, tn+"|delete-removes-node-from-graph", d.Pos(), ok,
+				ifelse(ok, "the blob is deleted only together with graph.Remove of the same descriptor", "a blob can be deleted without removing its node from the predecessor graph: Predecessors keeps reporting the deleted manifest"))
 		}
-		c.Check(R, tn+"|delete-removes-node-from-graph", rms[0].Pos(), ok,
-			ifelse(ok, "every successful delete passes graph.Remove(target)", "a blob can be deleted without removing its node from the predecessor graph: Predecessors keeps reporting the deleted manifest"))
 	}
 	if n == 0 {
-		c.Violation(R, "~/content/oci|delete-removes-node-from-graph", token.NoPos, "no function of the OCI store calls graph.Remove any more")
+		c.Violation(R, tn+"|delete-removes-node-from-graph", fn.Pos(), "Delete no longer removes the blob through the storage (anchor shape lost)")
 	}
 }
 
@@ -989,7 +1053,7 @@ func c07R2Load(c *Ctx) {
 				inLoop = append(inLoop, in)
 			}
 		}
-		ok := (len(ct.instrs) > 0 || len(ct.edges) > 0) && !reach(body.To, 0, loop.Header.Instrs[0], ct)
+		ok := (len(ct.instrs) > 0 || len(ct.edges) > 0) && !c07IterSkips(body, loop.Header, ct)
 		c.Check(R, tn+"|reindex-every-manifest", blockPos(loop.Header), ok,
 			ifelse(ok, "every iteration over index.Manifests calls graph.IndexAll for that entry (or returns an error)", "an entry of index.Manifests can be skipped when the layout is (re)opened: its edges are missing from Predecessors after reopen"))
 		okErr, detail := true, "the IndexAll error reaches the caller"
@@ -1005,14 +1069,14 @@ func c07R2Load(c *Ctx) {
 				continue
 			}
 			seen[in] = true
-			if r := ErrFlow(in.(ssa.CallInstruction), ErrFlowOpts{}); !r.OK {
+			if r := c05ErrFlow(in.(ssa.CallInstruction), ErrFlowOpts{}); !r.OK {
 				okErr, detail = false, r.Detail
 			}
 		}
 		for in := range loop.Blocks {
 			for _, x := range in.Instrs {
 				if call, isCall := x.(*ssa.Call); isCall && c05Helper(call, fn) != nil && ErrOf(call) != nil && !seen[x] {
-					if r := ErrFlow(call, ErrFlowOpts{}); !r.OK {
+					if r := c05ErrFlow(call, ErrFlowOpts{}); !r.OK {
 						okErr, detail = false, r.Detail
 					}
 				}
@@ -1034,7 +1098,7 @@ func c07R2Load(c *Ctx) {
 				arg := call.Common().Args[gi]
 				okG := false
 				if u, isU := arg.(*ssa.UnOp); isU && u.Op == token.MUL {
-					if fa, isFA := u.X.(*ssa.FieldAddr); isFA && c05FieldNameOf(fa.X.Type(), fa.Field) == "graph" && len(g.Params) > 0 && fa.X == ssa.Value(g.Params[0]) {
+					if fa, isFA := u.X.(*ssa.FieldAddr); isFA && c05IsNamedType(fa.Type().(*types.Pointer).Elem(), "internal/graph", "Memory") && len(g.Params) > 0 && fa.X == ssa.Value(g.Params[0]) {
 						okG = true
 					}
 				}
@@ -1072,12 +1136,17 @@ func c07R2GC(c *Ctx) {
 			}
 			n++
 			tn := FnName(fn)
+			// installed: stored into the store's graph field (of an existing store, or of the one being constructed)
 			var installs []ssa.Instruction
-			for _, u := range c05FieldUses([]*ssa.Function{fn}, "~/content/oci.Store", "graph") {
-				if st, isStore := u.Use.(*ssa.Store); isStore && SameValue(st.Val, G.Value()) {
+			AllInstrs(fn, func(in ssa.Instruction) {
+				st, isStore := in.(*ssa.Store)
+				if !isStore || !SameValue(st.Val, G.Value()) {
+					return
+				}
+				if fa, isFA := st.Addr.(*ssa.FieldAddr); isFA && c05IsNamedType(fa.Type().(*types.Pointer).Elem(), "internal/graph", "Memory") {
 					installs = append(installs, st)
 				}
-			}
+			})
 			ok := len(installs) > 0
 			for _, a := range c05MaybeNilAtoms(fn) {
 				if ok && !c05AtomMustPass(a, newCut().Instr(installs...)) {
@@ -1096,7 +1165,7 @@ func c07R2GC(c *Ctx) {
 		c.OK(R, "~/content/oci|rebuilt-graph-installed", token.NoPos, "the OCI store never rebuilds its graph")
 	}
 	// and nobody else replaces s.graph of a shared store
-	for _, u := range c05FieldUses(c.P.FuncsOfPkg("content/oci"), "~/content/oci.Store", "graph") {
+	for _, u := range c05FieldUses(c.P.FuncsOfPkg("content/oci"), "~/content/oci.Store", c05Cur.F("oci.graph")) {
 		st, isStore := u.Use.(*ssa.Store)
 		if !isStore || pathIsFresh(accessPath(u.Addr.X)) {
 			continue
@@ -1144,7 +1213,7 @@ func c07R2IndexWrapper(c *Ctx) {
 				stepAl[a] = true
 			}
 		}
-		if r := ErrFlow(st, ErrFlowOpts{}); !r.OK {
+		if r := c05ErrFlow(st, ErrFlowOpts{}); !r.OK {
 			ok, detail = false, "the index step's error is not returned: "+r.Detail
 		}
 	}
@@ -1191,7 +1260,7 @@ func c07R2IndexAll(c *Ctx) {
 	a := idxCall.Common().Args
 	okD := desc != nil && c05ParamOf(a[len(a)-1]) == desc
 	S := ResultOf(idxCall, 0)
-	r := ErrFlow(idxCall, ErrFlowOpts{Tolerated: []string{"~/errdef.ErrNotFound"}})
+	r := c05ErrFlow(idxCall, ErrFlowOpts{Tolerated: []string{"~/errdef.ErrNotFound"}})
 	c.Check(R, tn+"|skips-only-not-found", idxCall.Pos(), okD && r.OK, ifelse(okD && r.OK, "the visited node is indexed; only ErrNotFound is skipped: "+r.How, "an indexing failure other than ErrNotFound is swallowed during (re)load: "+r.Detail))
 	var gos []ssa.CallInstruction
 	for _, g := range CallsTo(T, nGo) {
@@ -1228,7 +1297,7 @@ func c07R2IndexAll(c *Ctx) {
 	c.Check(R, tn+"|descends-into-all-successors", T.Pos(), ok,
 		ifelse(ok, "every nil return follows the dispatch over the successors index returned (or: no successors / already visited / not found)", "the traversal can report success without descending into the successors of an indexed node: deeper edges are missing after reopen or GC"))
 	for _, g := range gos {
-		rr := ErrFlow(g, ErrFlowOpts{})
+		rr := c05ErrFlow(g, ErrFlowOpts{})
 		c.Check(R, tn+"|dispatch-error-returned", g.Pos(), rr.OK, rr.How+rr.Detail)
 	}
 }
@@ -1245,7 +1314,7 @@ func c07R3(c *Ctx) {
 		return
 	}
 	isMT := func(v ssa.Value) bool { return isFieldLoad(v, "MediaType") }
-	a, b := StringConstsComparedWith(im, isMT), StringConstsComparedWith(su, isMT)
+	a, b := c07StringSet(im, isMT, 0), c07StringSet(su, isMT, 0)
 	ok := len(a) > 0 && sameStrings(a, b)
 	c.Check(R, "IsManifest==Successors-cases", im.Pos(), ok,
 		ifelse(ok, fmt.Sprintf("both accept exactly %v", a), fmt.Sprintf("media types with outgoing edges %v differ from the types oci.Store.Push tags by digest %v: a kind that has successors but is not persisted in index.json loses its edges on reopen (or a persisted kind is never decoded)", b, a)))
@@ -1256,11 +1325,9 @@ func c07R3(c *Ctx) {
 func c07R4(c *Ctx) {
 	const R = "C07.R4.lock-discipline"
 	c.Expect(R, 18) // 23 on the pinned tree
-	LockCheck(c, R, []GuardSpec{c06GraphSpec()}, []string{"internal/graph"})
+	LockCheck(c, R, c06WithLockExempts(c, R, []GuardSpec{c06GraphSpec()}, []string{"internal/graph"}), []string{"internal/graph"})
 	// the OCI store swaps its graph pointer in GC: readers of s.graph hold s.sync (the unsafeStore exemption is proved under C06.R1)
-	LockCheck(c, R, []GuardSpec{{Type: "~/content/oci.Store", Fields: []string{"graph"}, Lock: "sync", Exempt: map[string]string{
-		"(*~/content/oci.unsafeStore).Predecessors": c06UnsafeWhy,
-	}}}, []string{"content/oci"})
+	LockCheck(c, R, c06WithLockExempts(c, R, []GuardSpec{{Type: "~/content/oci.Store", Fields: []string{c05Cur.F("oci.graph")}, Lock: c05Cur.F("oci.sync"), Exempt: c06UnsafeExempt()}}, []string{"content/oci"}), []string{"content/oci"})
 }
 
 var c07Mutants = []Mutant{
@@ -1288,7 +1355,7 @@ var c07Mutants = []Mutant{
 	{Name: "oci-push-index-error-ignored", File: "content/oci/oci.go", Old: "\tif err := s.graph.Index(ctx, s.storage, expected); err != nil {\n\t\treturn err\n\t}\n", New: "\t_ = s.graph.Index(ctx, s.storage, expected)\n", Expect: "C07.R2.every-push-indexed|(*~/content/oci.Store).Push|index-error-returned"},
 	{Name: "file-push-forcecas-not-indexed", File: "content/file/file.go", Old: "\treturn s.graph.Index(ctx, s, expected)", New: "\tif s.ForceCAS {\n\t\treturn nil\n\t}\n\treturn s.graph.Index(ctx, s, expected)", Expect: "C07.R2.every-push-indexed|(*~/content/file.Store).Push|index-on-every-success"},
 	{Name: "oci-delete-keeps-graph-node", File: "content/oci/oci.go", Old: "\tdanglings := s.graph.Remove(target)\n", New: "\tvar danglings []ocispec.Descriptor\n", Expect: "C07.R2.every-push-indexed|"},
-	{Name: "oci-delete-removes-only-tagged", File: "content/oci/oci.go", Old: "\tdanglings := s.graph.Remove(target)\n", New: "\tvar danglings []ocispec.Descriptor\n\tif untagged {\n\t\tdanglings = s.graph.Remove(target)\n\t}\n", Expect: "C07.R2.every-push-indexed|(*~/content/oci.Store).delete|delete-removes-node-from-graph"},
+	{Name: "oci-delete-removes-only-tagged", File: "content/oci/oci.go", Old: "\tdanglings := s.graph.Remove(target)\n", New: "\tvar danglings []ocispec.Descriptor\n\tif untagged {\n\t\tdanglings = s.graph.Remove(target)\n\t}\n", Expect: "C07.R2.every-push-indexed|(*~/content/oci.Store).Delete|delete-removes-node-from-graph"},
 	{Name: "loadindex-skips-untagged-manifests", File: "content/oci/readonlyoci.go", Old: "\t\tplain := descriptor.Plain(desc)\n\t\tif err := graph.IndexAll(ctx, fetcher, plain); err != nil {\n\t\t\treturn err\n\t\t}\n", New: "\t\tif desc.Annotations[ocispec.AnnotationRefName] == \"\" {\n\t\t\tcontinue\n\t\t}\n\t\tplain := descriptor.Plain(desc)\n\t\tif err := graph.IndexAll(ctx, fetcher, plain); err != nil {\n\t\t\treturn err\n\t\t}\n", Expect: "C07.R2.every-push-indexed|~/content/oci.loadIndex|reindex-every-manifest"},
 	{Name: "gc-rebuilt-graph-not-installed", File: "content/oci/oci.go", Old: "\ts.tagResolver = tagResolver\n\ts.graph = graph\n", New: "\ts.tagResolver = tagResolver\n", Expect: "C07.R2.every-push-indexed|(*~/content/oci.Store).gcIndex|rebuilt-graph-installed"},
 	{Name: "indexall-swallows-every-error", File: "internal/graph/memory.go", Old: "\t\t\tif errors.Is(err, errdef.ErrNotFound) {", New: "\t\t\tif errors.Is(err, errdef.ErrNotFound) || err != nil {", Expect: "C07.R2.every-push-indexed|(*~/internal/graph.Memory).IndexAll$1|skips-only-not-found"},
@@ -1343,7 +1410,7 @@ func c07R2Algorithms(c *Ctx) {
 		if f.Signature.Results().Len() != 1 || !types.Identical(f.Signature.Results().At(0).Type(), types.Typ[types.Bool]) {
 			continue
 		}
-		got := StringConstsComparedWith(f, isAlg)
+		got := c07StringSet(f, isAlg, 0)
 		if len(got) == 0 {
 			continue
 		}
@@ -1365,4 +1432,105 @@ func c07R2Algorithms(c *Ctx) {
 	if n == 0 {
 		c.OK(R, "~/content/oci|gc-knows-every-digest-algorithm", token.NoPos, "the OCI store has no algorithm filter (every directory is swept or none)")
 	}
+}
+
+// c07StringSet: the constant strings fn compares the subject with, in any of
+// the forms switch/if comparisons, lookup in a package-level map literal
+// (`table[x]`, keys whose value is not the constant false), slices.Contains
+// over a package-level slice literal, or a call of an in-module function that
+// does one of these with the subject as its argument.
+func c07StringSet(fn *ssa.Function, isSubject func(v ssa.Value) bool, depth int) []string {
+	set := map[string]bool{}
+	for _, s := range StringConstsComparedWith(fn, isSubject) {
+		set[s] = true
+	}
+	globalOf := func(v ssa.Value) *ssa.Global {
+		u, ok := strip(v).(*ssa.UnOp)
+		if !ok || u.Op != token.MUL {
+			return nil
+		}
+		g, _ := u.X.(*ssa.Global)
+		return g
+	}
+	AllInstrs(fn, func(in ssa.Instruction) {
+		switch x := in.(type) {
+		case *ssa.Lookup:
+			if g := globalOf(x.X); g != nil && isSubject(x.Index) {
+				for _, k := range c07GlobalLiteralStrings(g) {
+					set[k] = true
+				}
+			}
+		case *ssa.Call:
+			n := CalleeName(x)
+			if (n == "slices.Contains" || n == "slices.Index") && len(x.Call.Args) == 2 && isSubject(x.Call.Args[1]) {
+				if g := globalOf(x.Call.Args[0]); g != nil {
+					for _, k := range c07GlobalLiteralStrings(g) {
+						set[k] = true
+					}
+				}
+			}
+			if h := StaticCallee(x); h != nil && inModule(h) && len(h.Blocks) > 0 && depth < 2 {
+				for i, a := range x.Call.Args {
+					if isSubject(a) && i < len(h.Params) {
+						p := h.Params[i]
+						for _, k := range c07StringSet(h, func(v ssa.Value) bool { return strip(v) == ssa.Value(p) }, depth+1) {
+							set[k] = true
+						}
+					}
+				}
+			}
+		}
+	})
+	var out []string
+	for k := range set {
+		out = append(out, k)
+	}
+	sort.Strings(out)
+	return out
+}
+
+// c07GlobalLiteralStrings: the constant string keys (map literal) or elements
+// (slice/array literal) a package-level variable is initialised with.
+func c07GlobalLiteralStrings(g *ssa.Global) []string {
+	init := g.Pkg.Func("init")
+	if init == nil {
+		return nil
+	}
+	var out []string
+	AllInstrs(init, func(in ssa.Instruction) {
+		st, ok := in.(*ssa.Store)
+		if !ok || st.Addr != ssa.Value(g) {
+			return
+		}
+		switch v := st.Val.(type) {
+		case *ssa.MakeMap:
+			for _, r := range *v.Referrers() {
+				mu, ok := r.(*ssa.MapUpdate)
+				if !ok || mu.Map != ssa.Value(v) {
+					continue
+				}
+				if k, isK := mu.Value.(*ssa.Const); isK && k.Value != nil && k.Value.String() == "false" {
+					continue
+				}
+				if s, ok := constString(mu.Key); ok {
+					out = append(out, s)
+				}
+			}
+		case *ssa.Slice:
+			if a, ok := v.X.(*ssa.Alloc); ok {
+				for _, r := range *a.Referrers() {
+					if ia, ok := r.(*ssa.IndexAddr); ok {
+						for _, r2 := range *ia.Referrers() {
+							if s2, ok := r2.(*ssa.Store); ok && s2.Addr == ssa.Value(ia) {
+								if s, ok := constString(s2.Val); ok {
+									out = append(out, s)
+								}
+							}
+						}
+					}
+				}
+			}
+		}
+	})
+	return out
 }
